@@ -336,11 +336,12 @@ pub fn cases(tier: Tier) -> Vec<Case> {
         v.push(Case { label: format!("bytes-receiver sent={}", TYPE_NAMES[s]), bytes: bytes.clone(), atts: atts.clone(), how: How::BytesReceiver });
     }
     // (2) mutations of every valid encoding, decoded as the same type
-    let subs: [u8; 6] = [0x00, 0x01, 0x02, 0x7f, 0x80, 0xff];
+    // quick: six boundary byte values; thorough: every byte value at every offset
+    let subs: Vec<u8> = if tier.is_quick() { vec![0x00, 0x01, 0x02, 0x7f, 0x80, 0xff] } else { (0..=255u8).collect() };
     for t in 0..NTYPES {
         let (bytes, atts) = valid(t);
         for off in 0..bytes.len() {
-            for sb in subs {
+            for &sb in &subs {
                 if bytes[off] == sb {
                     continue;
                 }
@@ -394,7 +395,7 @@ pub fn cases(tier: Tier) -> Vec<Case> {
         let (bytes, own) = valid(t);
         for n in 1..=maxn {
             // all kind sequences of length n for n <= 3, rotations above
-            let seqs: Vec<Vec<AttKind>> = if n <= 3 {
+            let seqs: Vec<Vec<AttKind>> = if n <= 3 || (!tier.is_quick() && n <= 5) {
                 let mut out = vec![vec![]];
                 for _ in 0..n {
                     let mut nx = Vec::new();
@@ -456,7 +457,7 @@ pub fn run(tier: Tier, _part: bool) -> i32 {
     }
     rep.set("evaluations", json!(n));
     rep.set("distinct_nontrivial", json!(outcomes.len()));
-    rep.set("rule", json!("cases: (1) all 144 ordered pairs (sent type, expected type) of the 12-type family plus select-and-drop and bytes-receiver per type, (2) every single-byte substitution from {00,01,02,7f,80,ff} at every offset, every truncation, 1- and 8-byte extensions of each valid encoding, (3) attachment index in {0,1,count,count+1,MAX-1,MAX} x 0..2 attachments x {sender,receiver,region}, reused indices, (4) every unused attachment list of length 1..3 (rotations up to 8 thorough) over {sender,receiver,region}; distinct_nontrivial = distinct (case, value|error) outcomes that ended without panic or leak"));
+    rep.set("rule", json!("cases: (1) all 144 ordered pairs (sent type, expected type) of the 12-type family plus select-and-drop and bytes-receiver per type, (2) every single-byte substitution from {00,01,02,7f,80,ff} (thorough: all 256 values) at every offset, every truncation, 1- and 8-byte extensions of each valid encoding, (3) attachment index in {0,1,count,count+1,MAX-1,MAX} x 0..2 attachments x {sender,receiver,region}, reused indices, (4) every unused attachment list of length 1..3 (rotations up to 8 thorough) over {sender,receiver,region}; distinct_nontrivial = distinct (case, value|error) outcomes that ended without panic or leak"));
     rep.set("exhaustive", json!(true));
     rep.sample(serde_json::to_value(&cs[7]).unwrap());
     rep.sample(serde_json::to_value(&cs[cs.len() / 2]).unwrap());
